@@ -14,6 +14,7 @@ RULE = ("cases = every permutation of n<=4 subsystems (random ones for n=5,6) x 
         "(monitor, kind, n, flags, rectangular?) and is non-trivial when the permutation is not the identity; plus 9..13 subsystems (most of local "
         "dimension 1 or 2), omitted-dim calls with inexact integer roots, and repeat calls with the same ndarray index objects")
 CASE_TIMEOUT = {"quick": 240, "thorough": 3000}
+THOROUGH_REPEAT = 4  # the thorough tier runs its randomised case kinds this many times (new inputs each time)
 ASSUMPTIONS = [
     "reference model = NumPy C-order reshape/transpose of the (row dims + col dims) tensor; exact comparison (array_equal)",
     "2-D row vectors are outside the quantifier (library rejects them by design)",
